@@ -149,5 +149,21 @@ def run(ctx):
         ctx.note("empty-record-rotation-returned")
     except ZeroDivisionError:
         ctx.note("empty-record-zerodiv")
+    # small scope, exhaustively: every well-formed single-part location (and the zero-width sites) on records of
+    # length 1..3 (thorough: ..5), as a `source` and as an ordinary feature, on each strand, under every shift
+    # from one turn backwards to two turns forwards
+    from wire import Feat
+    top = 3 if ctx.tier == "quick" else 5
+    for n in range(1, top + 1):
+        wd = "ACgTN"[:n]
+        locs = [(s_, e_) for s_ in range(-n + 1, n) for e_ in range(max(s_ + 1, 1), s_ + n + 1)] + \
+               [(p_, p_) for p_ in range(0, n + 1)]
+        for (s_, e_) in locs:
+            for ftype in (0, 1):
+                for st in ((1, -1, 0) if ftype == 1 else (0,)):
+                    for k in range(-n - 1, 2 * n + 2):
+                        ctx.guard(check_case, {"word": wd, "feats": feats_to_json([Feat(ftype, "u1", (), ((s_, e_, st),))]),
+                                               "track": list(range(n)), "k": k, "k2": (k * 7 + s_) % (2 * n + 1) - n, "m": 1})
+    ctx.extra["cov_small_scope"] = "all single-part locations on records of length 1..{}, every shift in [-n-1, 2n+1]".format(top)
     for _ in range(ctx.budget(1500, 60000)):
         ctx.guard(check_case, gen_case(ctx.rng))
